@@ -201,6 +201,22 @@ class _DropAnn(ast.NodeTransformer):
 
 def _drop_local_annotations(tree: ast.Module) -> None:
     _DropAnn().visit(tree)
+    # loops over short literal sequences are unrolled (`for v in (0, 1): ...`, `for bdd, up in ((p, True), (n, False)): ...`)
+    from . import peval
+
+    def unroll_in(body: list) -> None:
+        for i, st in enumerate(body):
+            if isinstance(st, ast.FunctionDef):
+                if any(isinstance(x, ast.For) and isinstance(x.iter, (ast.Tuple, ast.List)) for x in ast.walk(st)):
+                    f2 = peval._Fold({}, unroll=True)
+                    st.body = f2._block(st.body) or st.body
+                    ast.fix_missing_locations(st)
+            elif isinstance(st, ast.ClassDef):
+                unroll_in(st.body)
+            elif isinstance(st, (ast.If, ast.Try)):
+                unroll_in(st.body)
+                unroll_in(getattr(st, "orelse", []))
+    unroll_in(tree.body)
 
 
 DYNAMIC_FEATURES = {"exec", "eval", "setattr", "__import__", "globals", "locals", "vars"}
